@@ -77,9 +77,10 @@ Inductive case :=
 (* a body of [size] bytes through an http proxy with a bandwidth limit of [limit] bytes/s (kind 1: response,
    server side limiter): status, digests sent / received, elapsed ms *)
 | CLimited (kind limit size status : Z) (sent got : bytes) (ms : Z)
-(* a request through a load-balancing group: as CFwd; hc_endpoint of [rc] is the member that served it (oracle of
-   the round robin), [member] the id of that member's backend; the dial address must name that member *)
-| CFwdG (rc : hr_route) (member : Z) (uq : hr_req) (reenc : bytes) (seen : c02_seen) (dial : option bytes) (resp got : hr_resp)
+(* a request through a load-balancing group: as CFwd; hc_endpoint of [rc] is the endpoint id the request was pooled
+   by (oracle: read off the dial address when a connection was dialled, else name#?), [member] / [mname] the backend
+   id and the name of the member that served it; the id must be one of that member: mname # join-number *)
+| CFwdG (rc : hr_route) (member : Z) (mname : bytes) (uq : hr_req) (reenc : bytes) (seen : c02_seen) (dial : option bytes) (resp got : hr_resp)
 (* group g1/alpha closed, another group registered on the same triple (variant 0: member of another name, 1: same
    name): backend reached before, backend reached after, status after *)
 | CRegroup (variant first second status : Z)
@@ -232,7 +233,7 @@ Definition check_case (c : case) : Z :=
       if negb (status =? 200) then 95
       else if negb (bytes_eqb sent got) then 96
       else 0
-  | CFwdG rc member uq reenc seen dial resp got =>
+  | CFwdG rc member mname uq reenc seen dial resp got =>
       let i := c02_in_req uq in
       let via_proxy := negb (hr_is_empty (hq_urlhost i)) in
       (* the endpoint the key carries is what today's glue makes of the chosen member *)
@@ -244,14 +245,14 @@ Definition check_case (c : case) : Z :=
       c02_first_nonzero
         [ c02_check_seen via_proxy pred seen member;
           (if c02_opt_eqb dial (hq_urlhost (hr_backend_view (Some rc) reenc i) ++ hr_b ":80") then 0 else 6);
+          (if is_prefix (mname ++ [x23]) chosen then 0 else 9);
           c02_check_got (hr_std_resp (Some rc) (c02_canon_resp resp)) got;
           c02_monitor_req (hc_headers rc) uq seen;
           c02_monitor_resp (hc_resp_headers rc) resp got ]
   | CRegroup variant first second status =>
-      (* the pool key of a group route is domain.location.user.member-name.0: a member of another name gets its own
-         key (fresh dial -> its own backend); a member of the SAME name gets the same key, i.e. the idle connection
-         to the former member's backend (recorded finding F-C02f) *)
-      let expect := if variant =? 1 then 1 else 2 in
+      (* every join has its own endpoint id, hence its own pool key: the request after the regrouping reaches the
+         new member's backend, whatever its name *)
+      let expect := 2 in
       if negb (first =? 1) then 101 else if negb (second =? expect) then 102 else if negb (status =? 200) then 103 else 0
   | CGroupStall probes answered join_ms bound =>
       (* with three members in turn at most every third request meets the stalling one *)
@@ -328,7 +329,7 @@ Definition is_aged (c : case) : bool :=
   match c with CAged t chunks _ ages _ => existsb (fun ch => t <=? fst ch) chunks && existsb (fun a => t <=? a) ages | _ => false end.
 Definition is_bighead (c : case) : bool := match c with CBigHead n _ _ _ => 20480 <? n | _ => false end.
 Definition is_limited (c : case) : bool := match c with CLimited _ l s _ _ _ _ => l <? s | _ => false end.
-Definition is_fwdg (c : case) : bool := match c with CFwdG _ _ _ _ _ _ _ _ => true | _ => false end.
+Definition is_fwdg (c : case) : bool := match c with CFwdG _ _ _ _ _ _ _ _ _ => true | _ => false end.
 Definition is_regroup (c : case) : bool := match c with CRegroup _ _ _ _ => true | _ => false end.
 Definition is_groupstall (c : case) : bool := match c with CGroupStall _ _ _ _ => true | _ => false end.
 Definition is_quic (c : case) : bool := match c with CQuic s _ _ _ => 1000000 <? s | _ => false end.
